@@ -39,7 +39,7 @@ class CallMixin:
             if name in ("old", "implies", "result", "use", "hint", "iff", "fresh_ref", "subset", "union", "setminus", "mapdom",
                         "singleton", "setadd", "setdel", "mapset", "mapdel", "seqlen", "issub", "isinst", "typeof", "ite", "mapget",
                         "emptyset", "length", "inter", "exc_is", "some", "unopt", "isnone", "const", "cast", "elems", "distinct",
-                        "str_init", "str_last", "str_first", "has", "aslist", "inside", "confined", "rec_has", "rec_get", "rec_set", "log_count", "log_arg", "log_result", "log_result_field", "log_raised", "module", "lower", "alph", "charset", "alnum_chars", "raised", "as_any", "as_data", "str_encode", "bytes_decode"):
+                        "str_init", "str_last", "str_first", "has", "aslist", "inside", "confined", "pname", "pparent", "pjoin", "rec_has", "rec_get", "rec_set", "log_count", "log_arg", "log_result", "log_result_field", "log_raised", "module", "lower", "alph", "charset", "alnum_chars", "raised", "as_any", "as_data", "str_encode", "bytes_decode"):
                 return Callable_("dslfn", name)
         mod = env.get("__mod__")
         if mod is not None:
